@@ -1,6 +1,7 @@
 package main
 
 import (
+	"reflect"
 	"encoding/json"
 	"fmt"
 	"os"
@@ -122,6 +123,16 @@ func c02Cases(g *Gen, s c02Setup, tags ...string) {
 	dump := ucfg.VerifDump(root)
 	rootC := coqValue(dump)
 	names := collectNames(s.Root, "")
+	// paths that walk THROUGH a setting that is an expression (it may stand for a container)
+	for _, k := range sortedKeys(s.Root) {
+		if str, ok := s.Root[k].(string); ok && strings.Contains(str, "${") && !strings.Contains(k, ".") {
+			for _, sub := range []string{"q", "r", "x", "k", "inner", "b", "0", "x.k"} {
+				if len(names) < 40 {
+					names = append(names, k+"."+sub)
+				}
+			}
+		}
+	}
 	sort.Strings(names)
 	for _, n := range names {
 		var str string
@@ -164,9 +175,87 @@ func c02Cases(g *Gen, s c02Setup, tags ...string) {
 			Desc: map[string]interface{}{"kind": "flat", "setup": encSetup(s), "tree": descValueExp(dump), "observed": kd},
 			Tags: append([]string{"flat"}, tags...), Nontrivial: true})
 	}
+	c02Typed(g, s, root, opts, eo, rootC, dump, tags)
 	g.Add(Case{Coq: fmt.Sprintf("CUnpackDyn %s %s %s", eo, rootC, xo),
 		Desc: map[string]interface{}{"kind": "unpack", "setup": encSetup(s), "tree": descValueExp(dump), "observed": xd},
 		Tags: append([]string{"unpack"}, tags...), Nontrivial: true})
+}
+
+// c02Typed: Unpack into a struct with one string field per plain top-level setting and one
+// []string field per literal list: fields and list entries are evaluated one after the other by
+// one call, and none may see the references of its neighbours as being evaluated
+func c02Typed(g *Gen, s c02Setup, root *ucfg.Config, opts []ucfg.Option, eo, rootC string, dump *ucfg.VerifNode, tags []string) {
+	type fld struct {
+		key  string
+		list int // -1: a string field
+	}
+	var fs []fld
+	for _, k := range sortedKeys(s.Root) {
+		if k == "" || strings.ContainsAny(k, ". ") {
+			continue
+		}
+		switch x := s.Root[k].(type) {
+		case map[string]interface{}, nil:
+		case []interface{}:
+			plain := true
+			for _, e := range x {
+				switch e.(type) {
+				case map[string]interface{}, []interface{}, nil:
+					plain = false
+				}
+			}
+			if plain && len(x) > 0 {
+				fs = append(fs, fld{k, len(x)})
+			}
+		default:
+			fs = append(fs, fld{k, -1})
+		}
+	}
+	if len(fs) == 0 || len(s.Parts) > 0 {
+		return
+	}
+	var sf []reflect.StructField
+	var cf []string
+	for i, f := range fs {
+		t := reflect.TypeOf("")
+		if f.list >= 0 {
+			t = reflect.TypeOf([]string(nil))
+			cf = append(cf, fmt.Sprintf("TList %s %d", coqStr(f.key), f.list))
+		} else {
+			cf = append(cf, "TStr "+coqStr(f.key))
+		}
+		sf = append(sf, reflect.StructField{Name: fmt.Sprintf("F%d", i), Type: t, Tag: reflect.StructTag(fmt.Sprintf(`config:"%s"`, f.key))})
+	}
+	target := reflect.New(reflect.StructOf(sf))
+	var uerr error
+	var xo, xd string
+	if p, msg := guard(func() { uerr = root.Unpack(target.Interface(), opts...) }); p {
+		xo, xd = "XPanic", "PANIC "+msg
+	} else if uerr != nil {
+		name := "EOther"
+		if e, ok := uerr.(ucfg.Error); ok {
+			name = reasonName(e)
+		}
+		xo, xd = "(XE "+name+")", descErr(uerr)
+	} else {
+		var ents []string
+		for i, f := range fs {
+			v := target.Elem().Field(i)
+			if f.list >= 0 {
+				var es []string
+				for j := 0; j < v.Len(); j++ {
+					es = append(es, "OStr "+coqStr(v.Index(j).String()))
+				}
+				ents = append(ents, fmt.Sprintf("(%s, OList %s)", coqStr(f.key), coqList(es)))
+			} else {
+				ents = append(ents, fmt.Sprintf("(%s, OStr %s)", coqStr(f.key), coqStr(v.String())))
+			}
+		}
+		xo, xd = "(XV (OMap "+coqList(ents)+"))", fmt.Sprintf("%+v", target.Elem().Interface())
+	}
+	g.Add(Case{Coq: fmt.Sprintf("CTyped %s %s %s %s", eo, rootC, coqList(cf), xo),
+		Desc: map[string]interface{}{"kind": "typed", "setup": encSetup(s), "tree": descValueExp(dump), "fields": fmt.Sprint(fs), "observed": xd},
+		Tags: append([]string{"typed"}, tags...), Nontrivial: true})
 }
 
 func collectNames(m map[string]interface{}, prefix string) []string {
@@ -284,6 +373,13 @@ func genC02(g *Gen, c08 bool) {
 		{Root: map[string]interface{}{"n": uint64(10), "h": "0x${n}", "s": " ${n} ", "l": "${n},${n}"}},              // spliced text is re-parsed
 		{Root: map[string]interface{}{"x": "${y}", "y": "${z:1}", "z": "${x:2}"}},                                    // F10
 		{Root: map[string]interface{}{"o": map[string]interface{}{"p": 1}, "r": "${o}", "q": "${o.p}", "s": "${r.p}"}}, // reference to a container
+		// a reference that leads through one tree into another: what stands there is looked up from the root of THAT tree
+		{Root: map[string]interface{}{"x": "${s.inner}"}, Envs: []map[string]interface{}{{"s": "${u}", "v": "env1"}, {"u": map[string]interface{}{"inner": "${v}"}, "v": "env2"}}},
+		{Root: map[string]interface{}{"x": "${s.inner}", "v": "own"}, Envs: []map[string]interface{}{{"u": map[string]interface{}{"inner": "${v}"}, "v": "env2"}, {"s": "${u}", "v": "env1"}}},
+		{Root: map[string]interface{}{"s": "${u}", "x": "${s.inner}", "v": "own"}, Envs: []map[string]interface{}{{"u": map[string]interface{}{"inner": "${v}"}, "v": "env2"}}},
+		// a path that walks twice through the same reference, two fields and two list entries reaching one variable: no cycles
+		{Root: map[string]interface{}{"p": "${ns}", "ns": map[string]interface{}{"q": "${p.r}", "r": "v"}}},
+		{Root: map[string]interface{}{"a": "${n}", "x": "${n}", "n": "${m}", "m": "v", "l": []interface{}{"${n}", "${n}"}}},
 		{Root: map[string]interface{}{"a": "${r1}", "b": "${r2}", "c": "${r1:dflt}"}, Resolvers: []resolverTable{{"r1": {"[1,2]", 0}, "r2": {"{k: v}", 1}}, {"r1": {"top", 2}}}},
 	}
 	for i, s := range w {
@@ -294,7 +390,7 @@ func genC02(g *Gen, c08 bool) {
 			c02Expr(g, txt)
 		}
 	}
-	names := []string{"a", "b", "c", "d", "n.x", "n.y", "e1", "e2", "r1", "r2", "l.0", "zz", "n.x.k", "a.b.c"}
+	names := []string{"a", "b", "c", "d", "n.x", "n.y", "e1", "e2", "r1", "r2", "l.0", "zz", "n.x.k", "a.b.c", "u", "u.inner", "s.inner"}
 	if c08 {
 		// names that pass through other settings (which may be references themselves)
 		names = append(names, "a.b", "b.k", "n", "c.x", "a.n.x")
@@ -345,6 +441,9 @@ func genC02(g *Gen, c08 bool) {
 				set(s.Root, "n.x", randScalar(r))
 			}
 		}
+		if r.P(1, 5) {
+			s.Root["s"] = "${u}"
+		}
 		nenv := r.Intn(3)
 		for k := 0; k < nenv; k++ {
 			e := map[string]interface{}{}
@@ -355,6 +454,14 @@ func genC02(g *Gen, c08 bool) {
 			}
 			if r.P(1, 6) {
 				e["n"] = randScalar(r)
+			}
+			if r.P(1, 3) {
+				// a container, and a reference to a container that may stand in another tree
+				if r.Bool() {
+					e["u"] = map[string]interface{}{"inner": val(), "k": val()}
+				} else {
+					e["s"] = "${u}"
+				}
 			}
 			s.Envs = append(s.Envs, e)
 		}
